@@ -37,7 +37,7 @@ ASSUMPTIONS_EXTRA = [
 
 MANIFEST_EXTRA = {
     "text": "The factorised / cached strategies as algebra (Lean model TfPwaV.Factorise, theorems in Props/C05c.lean, for ANY commutative ring with a conjugation endomorphism and any number of chains, decays, ls terms, events): (4) params_vector_row_major / cached_eq_direct / cached_eq_direct_helicity_sum - build_params_vector's iterated outer product is the row-major product tensor (the order of split_gls), and Σ_chains Σ_k pv_k · ang_k equals the direct multilinear expression Σ_chains Π_decays (Σ_ls g_ls · part_ls), also summed over inner-helicity configurations; (5) factor_eq_direct / factor_total_eq_direct / factor_eq_cached - the successive contraction of the leading axis in FactorAmplitudeModel.get_amp_list never raises on well-shaped input and returns the same product, it declines exactly when the reshape raises; (6) cached_int_eq_direct - Σ_ab p_a conj(p_b) M_ab with M_ab = Σ w x_a conj(x_b) built once at θ0 equals Σ_events w |A(θ)|² GIVEN the cached tensors are the same at θ and θ0 (fixed masses / widths), with a counterexample without that hypothesis; the value is self-conjugate (tf.math.real loses nothing) and the matrix is additive over batches. Tied to the code by exact comparison of build_params_vector, build_angle_amp_matrix, cached_amp, build_amp2s, CachedAmpAmplitudeModel.pdf, FactorAmplitudeModel.get_amp_list / pdf, opt_int.build_int_matrix / build_params_vector / build_params_matrix / cached_int_mc and ModelCachedInt.build_cached_int on stub decay groups with integer-valued float64 / complex128 tensors, plus a model-independent numpy oracle for the direct expressions.",
-    "note": "Still validated only for part B: that the real DecayGroup serves tensors with the axes the stub uses (m_dep order, angle tensor axes), the cached_shape variant (CachedShapeAmplitudeModel / CachedShapePreProcessor), sum_with_polarization, gradients / Hessians of the cached likelihoods, tf.function tracing - all covered by the strategy comparison on the config zoo; additivity of factorAmp in the angular tensor (non-product tensors) by the exact correspondence.",
+    "note": "Still validated only for part B: that the real DecayGroup serves tensors with the axes the stub uses (m_dep order, angle tensor axes), sum_with_polarization (the cached_shape variant has its own model: harness/c05_shape.py, Props/C05d.lean), gradients / Hessians of the cached likelihoods, tf.function tracing - all covered by the strategy comparison on the config zoo; additivity of factorAmp in the angular tensor (non-product tensors) by the exact correspondence.",
 }
 
 HELS = [(), (1,), (2,), (3,), (2, 2), (3, 2)]
